@@ -474,6 +474,13 @@ func (lr *lifeRun) execOp(t *Toks) error {
 				buf = append(buf, encodeReq(q).encode()...)
 			case "bad":
 				buf = append(buf, 0x30, 0x03, 0x02, 0x01, 0x05)
+				if ci < len(lr.clients) {
+					// (when these bytes run into a TLS handshake the server answers with an alert
+					// record: what follows on this connection cannot be counted as LDAP frames)
+					lr.clients[ci].mu.Lock()
+					lr.clients[ci].bulk = true
+					lr.clients[ci].mu.Unlock()
+				}
 			case "hello":
 				hello = true
 			}
